@@ -164,7 +164,10 @@ class History:
         group_scope: dict[int, int] = {}
         base_scope: dict[int, int] = {}
         tainted_groups: set[int] = set()
+        start_joining: set[int] = set()         # starters that were interrupted and now wait for the child to end
+        native_out: dict[int, int] = {}          # task -> native cancel requests not yet uncancelled by the program
         self._tainted = tainted_groups
+        self._start_errors = {}
         self._group_scope = group_scope
         pre_started_end: set[int] = set()
         enter_info: dict[int, tuple] = {}         # sid -> (task, ncancel at entry, step)
@@ -192,6 +195,7 @@ class History:
                     shield_events.append(i)
                 elif c == S.UNCANCEL:
                     ext_events.append((i, t))
+                    native_out[t] = max(native_out.get(t, 0) - 1, 0)
                 elif c == S.GEXIT:
                     errs = [x for x in (hb[1] if hb else []) if not is_cancel_code(x)]
                     expected.setdefault(b, []).extend(errs)
@@ -232,6 +236,8 @@ class History:
                     completions.append((t, op, res, prev, hb))
             elif c == S.NATIVECANCEL:
                 ext_events.append((i, a))
+                if prev["tasks"].get(a, {}).get("state", 9) < 3:
+                    native_out[a] = native_out.get(a, 0) + 1
             elif c == S.EXTCANCEL:
                 explicit_cancel.add(a)
             elif c in (S.RUNSTEP, S.RUNWAKE):
@@ -255,7 +261,10 @@ class History:
                         self.v("C08", f"step {i}: cancel_shielded_checkpoint of task {t} was interrupted by AnyIO cancellation {origins}")
                     if res[0] != "blocked":
                         del pending[t]
+                        start_joining.discard(t)
                         completions.append((t, op0, res, snap0, hb0))
+                    elif op0[0] == S.START:
+                        start_joining.add(t)
             elif c == S.RUNDELIVER:
                 if a in exited and (3000 + a) in snap["ready"] and snap["ready"].count(3000 + a) >= prev["ready"].count(3000 + a):
                     self.v("C05", f"step {i}: delivery callback of scope {a} re-scheduled itself although the scope was left at step {exited[a]}")
@@ -268,6 +277,7 @@ class History:
                 if t in pre_started_end:
                     st = via_start[t]
                     still_waiting = st in pending and pending[st][0][0] == S.START and start_child.get(st) == t \
+                        and st not in start_joining \
                         and prev["tasks"][st]["state"] == 2 and (2000 + st) not in prev["ready"] and not prev["tasks"][st]["must"]
                     to_starter = still_waiting
                     if to_starter:
@@ -278,6 +288,8 @@ class History:
                 if g_ is not None and errs and not to_starter:
                     expected.setdefault(g_, []).extend(errs)
                     self.flags.add("member_error")
+                    if t in via_start:
+                        self._start_errors.setdefault(g_, []).extend(errs)
                     if t in via_start and t not in started_val:
                         self.flags.add("unstarted_child_error_to_group")
 
@@ -316,6 +328,12 @@ class History:
 
             self.check_delivery_alive(snap, i)
             self.check_timers(prev, snap, op, i, explicit_cancel)
+            for tt, n in native_out.items():
+                tk = snap["tasks"].get(tt)
+                if tk is not None and tk["state"] < 3 and n > 0:
+                    self.flags.add("native_request_outstanding")
+                    if tk["ncancel"] < n:
+                        self.v("C05", f"step {i}: task {tt} has {n} native cancellation request(s) the program never uncancelled, but cancelling() = {tk['ncancel']}: a cancel scope erased a request it did not make")
             for sc_id, when in exited.items():
                 if not snap["scopes"][sc_id]["active"] and (
                         any(code == 6000 + sc_id for (_w, code) in snap["timers"]) or (6000 + sc_id) in snap["ready"]):
@@ -361,6 +379,9 @@ class History:
             self.flags.add("group_raised_errors")
             if got != exp:
                 self.v("C02", f"step {i}: group {g} raised error leaves {got} but body and children raised {exp}")
+                lost = [x for x in self._start_errors.get(g, []) if x not in got]
+                if lost:
+                    self.v("C07", f"step {i}: errors {lost} raised by children started with start() were discarded (group {g} raised {got})")
             own = [x for x in cancels if x - 1000 == self._group_scope.get(g)]
             if own and res[1]:
                 self.v("C02", f"step {i}: group {g} reported cancellations {own} caused by its own scope among its errors")
@@ -532,8 +553,8 @@ PROFILES = {
                 sleep_forever=1.0, run=6, deadline_prob=0.15),
     "C04": dict(cancel=4, extcancel=1.0, setshield=2.0, shield_prob=0.4, newscope=5, exit=6, max_depth=5, wrap=0.6, hold=1.0,
                 deadline_prob=0.1, spawn=2),
-    "C05": dict(cancel=4, exit=6, newscope=5, nativecancel=0.5, uncancel=0.3, spawn=3, hcancel=1.5, gnew=2, deadline_prob=0.25,
-                tick=2.5),
+    "C05": dict(cancel=4, exit=6, newscope=5, nativecancel=1.2, uncancel=0.3, spawn=4, hcancel=2.5, gnew=2.5, gexit=5,
+                finish=4, deadline_prob=0.25, tick=2.5),
     "C06": dict(deadline_prob=0.85, failat=3, setdeadline=2.5, tick=5, sleep=4, effdl=2.0, newscope=5, exit=5, shield_prob=0.3,
                 cancel=0.8, gnew=0.8),
     "C07": dict(start=6, started=8, gnew=3, genter=9, gexit=4, finish=5, cancel=3, hold=2, spawn=1.5, newscope=1.5,
@@ -600,11 +621,14 @@ def scheck(pid: str, tier: str, extra_assumptions=None, known=None) -> int:
     runs = []
     corpus_dir = core.VERIF / "corpus" / pid
     n_corpus = 0
+    corpus_incomplete = []
     for f in sorted(corpus_dir.glob("*.json")) if corpus_dir.exists() else []:
-        w = run_ops_safely(json.loads(f.read_text())["ops"])
-        if w is not None:
-            runs.append(w)
-            n_corpus += 1
+        w = sgen.replay(json.loads(f.read_text())["ops"], tolerant=True)
+        runs.append(w)
+        n_corpus += 1
+        if w.incomplete:
+            corpus_incomplete.append({"file": f.name, "stopped_at_step": w.incomplete[0], "why": w.incomplete[1],
+                                      "ops": w.ops, "ops_readable": sgen.readable(w.ops)})
     n_random = 250 if tier == "quick" else 4000
     gen_errors = 0
     for _ in range(n_random):
@@ -664,12 +688,15 @@ def scheck(pid: str, tier: str, extra_assumptions=None, known=None) -> int:
         tie.append("correspondence Machine.run_case vs AnyIO (scopes/task groups) on SchedLoop")
     if not vm_ok and not disagreements:
         tie.append("vm_compute sample disagrees with the extracted model")
+    if corpus_incomplete:
+        tie.append("stored corpus history can no longer be executed on the implementation: " + corpus_incomplete[0]["file"])
     if tie and not hits:
         d = min(disagreements, key=lambda x: len(x["ops"])) if disagreements else None
         if d:
             d = dict(d)
             d["ops_readable"] = sgen.readable(d["ops"])
-        rep.violation("; ".join(tie), {"kind": "tie", "broken": tie, "case": d}, no_input=True)
+        rep.violation("; ".join(tie), {"kind": "tie", "broken": tie, "case": d, "corpus_incomplete": corpus_incomplete[:2]},
+                      no_input=True)
 
     rep.coverage.update({
         "trusted_base": rep.assumptions,
